@@ -407,7 +407,7 @@ func GenExifRec(r *core.Rng, o RecOpts) *ExifRec {
 				// order, offsets counted from its own header) with n entries whose values follow it
 				n := r.Pick(1, 5, 30, 70, 70)
 				if o.NikonBigNote {
-					n = 82
+					n = r.Pick(76, 79, 80, 81)
 				}
 				le := r.Bool()
 				p16 := func(b []byte, v int) []byte {
